@@ -244,20 +244,29 @@ func (v *Verifier) specFor(fn *ssa.Function) (*FuncSpec, *ContractSet) {
 }
 
 func (v *Verifier) methodSpec(com *ssa.CallCommon) *FuncSpec {
-	t := types.Unalias(com.Value.Type())
+	return v.methodSpecOf(com.Value.Type(), com.Method.Name())
+}
+
+// methodSpecOf finds the contract of an interface method, looking through embedded interfaces.
+func (v *Verifier) methodSpecOf(t types.Type, method string) *FuncSpec {
+	t = types.Unalias(t)
 	n, ok := t.(*types.Named)
 	if !ok {
 		return nil
 	}
-	if n.Obj().Pkg() == nil {
-		return nil
+	if n.Obj().Pkg() != nil {
+		if cs := v.contracts[n.Obj().Pkg().Path()]; cs != nil {
+			if fs, ok := cs.Funcs["("+n.Obj().Name()+")."+method]; ok {
+				return fs
+			}
+		}
 	}
-	cs := v.contracts[n.Obj().Pkg().Path()]
-	if cs == nil {
-		return nil
-	}
-	if fs, ok := cs.Funcs["("+n.Obj().Name()+")."+com.Method.Name()]; ok {
-		return fs
+	if it, ok := n.Underlying().(*types.Interface); ok {
+		for i := 0; i < it.NumEmbeddeds(); i++ {
+			if fs := v.methodSpecOf(it.EmbeddedType(i), method); fs != nil {
+				return fs
+			}
+		}
 	}
 	return nil
 }
@@ -683,7 +692,6 @@ func (v *Verifier) VerifyFunc(cs *ContractSet, spec *FuncSpec) (res *FuncResult)
 		val := freshVal(fv.Type(), "free."+fv.Name(), nil)
 		st.assume(Gt(val.L[0], IntLit(0)))
 		fr.free[fv] = val
-		fr.params[fv.Name()] = val
 	}
 	env := r.specEnv(st, fr, "pre")
 	env.old = st
@@ -704,6 +712,9 @@ func (v *Verifier) VerifyFunc(cs *ContractSet, spec *FuncSpec) (res *FuncResult)
 		for _, c := range spec.ClausesOf("ensures") {
 			g := penv.evalBool(c.Expr)
 			r.oblige(st2, fmt.Sprintf("ensures%d", c.Ord), c.Props, fmt.Sprintf("return in block %d (%s)", fr.retBlock.Index, fr.retBlock.Comment), g)
+			last := r.obligs[len(r.obligs)-1]
+			last.Env = penv
+			last.Spec = spec
 		}
 	}
 	r.execBlock(st, fr, fn.Blocks[0], nil)
